@@ -206,6 +206,9 @@ func runC14(c *fw.Ctx) {
 	}
 	for b := 0; b < nb && e.Halted == ""; {
 		step := r.Range(1, 4)
+		if b > 0 && r.Chance(3) {
+			e.Reimport()
+		}
 		RunMixed(e, g, w, step)
 		b += step
 		if e.Halted != "" {
